@@ -135,16 +135,35 @@ def plain_readback(s):
     return s.replace('"', "''")
 
 
+class _Hang(Exception):
+    pass
+
+
 def impl_long(s, ext, indent):
+    """_write_longstring under a 1 s watchdog (a split position of 0 makes its loop spin forever)."""
+    import signal
     from srctools import fgd as F
     f = io.StringIO()
-    F._write_longstring(f, ext, s, indent=indent)
+    def on_alarm(*a):
+        raise _Hang()
+    old = signal.signal(signal.SIGALRM, on_alarm)
+    signal.setitimer(signal.ITIMER_REAL, 1.0)
+    try:
+        F._write_longstring(f, ext, s, indent=indent)
+    except _Hang:
+        return None
+    finally:
+        signal.setitimer(signal.ITIMER_REAL, 0)
+        signal.signal(signal.SIGALRM, old)
     return f.getvalue()
 
 
 def check_long_property(ctx, s, ext, out, read):
     """The property for one string: reading the written text gives the string back (in its documented form)."""
     case = {'kind': 'longstring', 's': codes(s), 'ext': ext}
+    if out is None:
+        ctx.witness('longstring-hangs', f'_write_longstring(extended={ext}) does not terminate on a string of length {len(s)}', case)
+        return
     want = s if ext else plain_readback(s)
     if not ext and ('\\' in s or '\r' in s):
         return
@@ -166,6 +185,13 @@ def corr_long(ctx, drv):
         for ext in (True, False):
             indent = ctx.rng.choice(['\t', '\t\t'])
             out = impl_long(s, ext, indent)
+            if out is None:
+                check_long_property(ctx, s, ext, out, {})
+                ctx.count('long:hangs')
+                if ctx.hist.get('long:hangs', 0) > 5:
+                    ctx.notes.append('long strings: implementation keeps hanging, part abandoned')
+                    return
+                continue
             r = tokutil.impl_run(Tokenizer, TokenSyntaxError, out + '\n', _fgd_opts(), max_calls=len(out) + 8)
             rd = impl_read_colon(out + '\n', True)
             check_long_property(ctx, s, ext, out, rd)
@@ -313,9 +339,46 @@ def _ent_json(ent, edb):
     return [edb.ENTITY_TYPE_2_FLAG[ent.type].value, bool(ent.is_alias), bases, kvs, ios[0], ios[1], res]
 
 
-def _ent_back_json(ent, edb):
-    j = _ent_json(ent, edb)
-    return j
+def _ent_from_json(ej, edb):
+    """Inverse of _ent_json (for replays)."""
+    from srctools.fgd import EntityDef, KVDef, IODef, Resource
+    kind = next(k for k, f in edb.ENTITY_TYPE_2_FLAG.items() if f.value == ej[0])
+    ent = EntityDef(kind, 'replayed')
+    ent.is_alias = ej[1]
+    ent.bases = [uncodes(b) for b in ej[2]]
+    for kv in ej[3]:
+        t = edb.VALUE_TYPE_ORDER[kv[2]]
+        vals = [(f[0], uncodes(f[1]), f[2], frozenset(['X']) if f[3] else frozenset()) for f in kv[5]] if t.name == 'SPAWNFLAGS' else \
+            ([('0', 'x', frozenset())] if t.name == 'CHOICES' else None)
+        ent.keyvalues[uncodes(kv[0]).casefold()] = {frozenset(): KVDef(uncodes(kv[0]), t, uncodes(kv[1]), uncodes(kv[4]), uncodes(kv[6]), vals, kv[3], kv[7])}
+    for coll, js in ((ent.inputs, ej[4]), (ent.outputs, ej[5])):
+        for io_ in js:
+            coll[uncodes(io_[0]).casefold()] = {frozenset(): IODef(uncodes(io_[0]), edb.VALUE_TYPE_ORDER[io_[1]], uncodes(io_[2]))}
+    ent.resources = [Resource(uncodes(r[0]), edb.FILE_TYPE_ORDER[r[1]], frozenset(uncodes(t) for t in r[2])) for r in ej[6]]
+    return ent
+
+
+def record_roundtrip_ok(ej):
+    """ent_unserialise(ent_serialise(e)) == strip(e) for the record `ej` with a dictionary holding exactly its strings."""
+    from srctools import _engine_db as edb
+    ent = _ent_from_json(ej, edb)
+    strings = set()
+    edb.ent_serialise(ent, io.BytesIO(), lambda s_: (strings.add(s_), b'\0\0')[1])
+    base_set = set(sorted(strings)[:edb.SHARED_STRINGS])
+    i = 0
+    while len(base_set) < edb.SHARED_STRINGS:
+        base_set.add(f'\x01pad{i}'); i += 1
+    base = edb.BinStrDict(base_set, None)
+    d = edb.BinStrDict(strings - base_set, base)
+    f = io.BytesIO()
+    d.serialise(f)
+    edb.ent_serialise(ent, f, d)
+    f.seek(0)
+    _, lookup = edb.BinStrDict.unserialise(f, sorted(base_set))
+    e2 = edb.ent_unserialise(f, ent.classname, lookup)
+    a = G.norm_binary(G.canon_ent(ent)); b = G.norm_binary_loaded(G.canon_ent(e2))
+    a['bases'] = [['name', x[1]] for x in a['bases']] if ent.bases else []
+    return G.first_diff(a, b)
 
 
 def gen_record_ent(rng, words):
@@ -609,12 +672,32 @@ def shipped_layout(full, data):
 _STATE = {}
 
 
+def guard(ctx, name, fn, *args):
+    """Run one part of the check. An exception raised INSIDE the implementation (innermost frame under
+    srctools/) on inputs of the property's domain is a failing input, not an internal error."""
+    import traceback
+    try:
+        return fn(*args)
+    except Exception as e:
+        tb = traceback.extract_tb(e.__traceback__)
+        inner = tb[-1].filename if tb else ''
+        if '/srctools/' in inner.replace('\\', '/'):
+            ctx.witness('impl-raises', f'{name}: the implementation raised {G.exc_str(e)} at {inner.split("/")[-1]}:{tb[-1].lineno}', {'kind': 'part', 'part': name})
+            return None
+        raise
+
+
 def correspond(ctx, drivers):
     drv = drivers['drv_c16']
-    corr_long(ctx, drv)
-    corr_colon(ctx, drv)
-    corr_dict(ctx, drv)
-    corr_records(ctx, drv)
+    guard(ctx, 'long strings', corr_long, ctx, drv)
+    guard(ctx, 'colon lists', corr_colon, ctx, drv)
+    guard(ctx, 'string dictionary', corr_dict, ctx, drv)
+    guard(ctx, 'records', corr_records, ctx, drv)
+    guard(ctx, 'lazy database', _corr_lazy_all, ctx, drv)
+    ctx.exhaustive = False
+
+
+def _corr_lazy_all(ctx, drv):
     from srctools.fgd import FGD
     data = shipped_bytes()
     full = FGD.engine_dbase()
@@ -630,12 +713,14 @@ def correspond(ctx, drivers):
         real.append((lay, qs, 7))
     real.append((lay, aliases + [bs[0] for b in lay for (n, bs, _) in b if bs], 7))
     corr_lazy(ctx, drv, real)
-    ctx.exhaustive = False
 
 
 def search_generated(ctx):
     n = ctx.budget(120, 1500)
     for i in range(n):
+        if G.HANGS[0] >= 3:
+            ctx.notes.append('generated FGDs: export keeps hanging, part abandoned')
+            return
         seed = ctx.rng.getrandbits(48)
         opts = {'tags': ctx.rng.random() < 0.4, 'long_p': ctx.rng.choice([0.0, 0.05, 0.3]), 'empty_choice_names': ctx.rng.random() < 0.5}
         for cs in (True, False):
@@ -666,6 +751,8 @@ def search_shipped(ctx):
     data = _STATE.get('data') or shipped_bytes()
     combos = [(True, True), (False, True)] + ([(True, False), (False, False)] if ctx.thorough else [])
     for cs, ls in combos:
+        if G.HANGS[0] >= 4:
+            break
         probs, info = G.text_roundtrip(full, cs, ls, field_equality=True)
         ctx.count('text:shipped-entities', len(full.entities))
         ctx.case({'shipped-text': [cs, ls], 'len': info.get('len')}, nontrivial=True)
@@ -737,7 +824,7 @@ def search(ctx):
         for s in boundary_strings() + random_long(ctx.rng, 200):
             for ext in (True, False):
                 out = impl_long(s, ext, '\t')
-                check_long_property(ctx, s, ext, out, impl_read_colon(out + '\n', True))
+                check_long_property(ctx, s, ext, out, impl_read_colon(out + '\n', True) if out is not None else {})
     # neighbours of disagreeing long strings
     for d in ctx.disagreements[:10]:
         c = d['case']
@@ -746,9 +833,9 @@ def search(ctx):
             for t in (s, s[1:], s[:-1], s + 'x', 'x' + s):
                 for ext in (True, False):
                     out = impl_long(t, ext, '\t')
-                    check_long_property(ctx, t, ext, out, impl_read_colon(out + '\n', True))
-    search_generated(ctx)
-    search_shipped(ctx)
+                    check_long_property(ctx, t, ext, out, impl_read_colon(out + '\n', True) if out is not None else {})
+    guard(ctx, 'generated FGDs', search_generated, ctx)
+    guard(ctx, 'shipped database', search_shipped, ctx)
     shrink(ctx)
     ctx.notes.append(f'search wall {time.time() - t0:.1f}s')
 
@@ -761,7 +848,7 @@ def shrink(ctx):
             def fails(chars):
                 t = ''.join(chars)
                 out = impl_long(t, ext, '\t')
-                return impl_read_colon(out + '\n', True).get('strings') != [codes(t if ext else plain_readback(t))]
+                return out is None or impl_read_colon(out + '\n', True).get('strings') != [codes(t if ext else plain_readback(t))]
             if fails(list(s)):
                 # shrink the runs, not single characters: compress to (char, count) units first
                 small = ''.join(ddmin(list(s), fails, budget=120))
@@ -779,9 +866,10 @@ def replay(ctx, payload):
     if kind == 'longstring':
         s = uncodes(inp['s']); ext = inp['ext']
         out = impl_long(s, ext, '\t')
-        rd = impl_read_colon(out + '\n', True)
+        rd = impl_read_colon(out + '\n', True) if out is not None else {}
         check_long_property(ctx, s, ext, out, rd)
-        print('string of length', len(s), 'extended', ext, 'written as', out.count('" +\n') + 1, 'pieces; reader:', str(rd)[:200])
+        if out is not None:
+            print('string of length', len(s), 'extended', ext, 'written as', out.count('" +\n') + 1, 'pieces; reader:', str(rd)[:200])
     elif kind == 'gen-text':
         fgd = G.gen_fgd(random.Random(inp['seed']), inp['opts'])
         probs, info = G.text_roundtrip(fgd, inp['cs'], inp['ls'], field_equality=(inp['cs'] or not inp['opts'].get('tags')))
@@ -801,9 +889,33 @@ def replay(ctx, payload):
         print(probs)
         for k, w in probs:
             ctx.witness(k, w, inp)
-    elif kind in ('lazy-shipped', 'engine_def', 'engine_classes', 'lazy'):
+    elif kind in ('lazy-shipped', 'engine_def', 'engine_classes') or (kind == 'lazy' and not isinstance(inp.get('layout'), list)):
         from srctools.fgd import FGD
         search_lazy_shipped(ctx, FGD.engine_dbase(), shipped_bytes())
+    elif kind == 'record':
+        d = record_roundtrip_ok(inp['ent'])
+        print('record round trip difference:', d)
+        if d:
+            ctx.witness('record-roundtrip', d, inp)
+    elif kind == 'lazy' and isinstance(inp.get('layout'), list):
+        layout = [[tuple(e) for e in b] for b in inp['layout']]
+        db = build_engine_db(layout); db0 = build_engine_db(layout)
+        for q in inp['qs']:
+            try: db.get_ent(q)
+            except KeyError: pass
+        with contextlib.redirect_stdout(io.StringIO()):
+            db0.get_fgd()
+        for q in inp['qs']:
+            e = db.ent_map.get(q.casefold())
+            if e is not None and not isinstance(e, int):
+                d = G.first_diff(G.canon_ent(db0.ent_map[q.casefold()], deep_bases=True), G.canon_ent(e, deep_bases=True))
+                print(q, d)
+                if d:
+                    ctx.witness('lazy-differs', d, inp)
+    elif kind == 'part':
+        ctx.tier = 'quick'
+        guard(ctx, 'generated FGDs', search_generated, ctx)
+        guard(ctx, 'shipped database', search_shipped, ctx)
     else:
         print('replay file names a broken obligation/correspondence, no input to replay:', payload.get('broken_obligations'), str(payload.get('disagreements', [])[:1])[:500])
         return False
